@@ -5,6 +5,7 @@ import (
 	"go/token"
 	"go/types"
 	"os"
+	"sort"
 	"strings"
 
 	"golang.org/x/tools/go/ssa"
@@ -1143,15 +1144,16 @@ func ruleTwinAgree(c *Ctx) {
 
 // ---------------------------------------------------------------------------
 // DOM/gc-unsend (C02, C01): the collector's decisions about sent-ness.
-//  (a) A node that is kept is marked "unsend" exactly when the released root was
-//      sent to the client AND no sent reference to the node remains after the
-//      count-down; with either half missing a node the client still holds is
-//      un-sent (it is delivered a second time later, its events stop), or a node
-//      the client dropped stays "sent" (a later resource set leaves it out).
-//  (b) The mark phase starts only when the root is to go (no holder left) or is to
-//      be un-sent (sent, no sent reference left). For a root that stays as it is
-//      the walk would see its children with their counts already lowered and
-//      un-send children the client still holds through the root.
+//
+//	(a) A node that is kept is marked "unsend" exactly when the released root was
+//	    sent to the client AND no sent reference to the node remains after the
+//	    count-down; with either half missing a node the client still holds is
+//	    un-sent (it is delivered a second time later, its events stop), or a node
+//	    the client dropped stays "sent" (a later resource set leaves it out).
+//	(b) The mark phase starts only when the root is to go (no holder left) or is to
+//	    be un-sent (sent, no sent reference left). For a root that stays as it is
+//	    the walk would see its children with their counts already lowered and
+//	    un-send children the client still holds through the root.
 func ruleGCUnsend(c *Ctx) {
 	p := c.P
 	fn := p.Fn("(*server.wsConn).tryDelete")
@@ -3206,5 +3208,128 @@ func ruleDirectStatusFirst(c *Ctx) {
 	}
 	if n == 0 {
 		c.viol("(*server.wsConn).GetHTTPSubscription", "the grants of an HTTP access answer are evaluated only if its meta status is not the response", "-", "no HTTP access continuation found: anchor lost")
+	}
+}
+
+// ---------------------------------------------------------------------------
+// TABLE/status-classes (C16, C17): the places that sort a meta status into its
+// class compare it at the class borders: 300 and 400 where redirects are told
+// from errors, 300 and 600 where a status is told from "no direct response",
+// 400 / 500 / 600 in the error table. Every ordered comparison of the status
+// with a constant is evaluated for all values 0..699 and the value at which it
+// flips is taken; the set of flip points per function must be the borders of
+// the table. `status > 300` flips at 301: a status of exactly 300 is then no
+// redirect and goes out as an error without Location.
+var statusTable = []struct {
+	fn     string
+	flips  []int64
+	status string // "param" or the field read
+}{
+	{"server.httpStatusResponse", []int64{300, 400}, "param"},
+	{"(*codec.Meta).IsDirectResponseStatus", []int64{300, 600}, "codec.Meta.Status"},
+	{"(*codec.Meta).IsValidStatus", []int64{300, 600}, "codec.Meta.Status"},
+	{"server.statusError", []int64{400, 500, 600}, "param"},
+}
+
+func ruleStatusClasses(c *Ctx) {
+	p := c.P
+	for _, row := range statusTable {
+		fn := p.Fn(row.fn)
+		if fn == nil {
+			c.undecided(row.fn, "anchor", "-", "not found")
+			continue
+		}
+		var fStatus *types.Var
+		if row.status != "param" {
+			fStatus = p.Field(row.status)
+		}
+		isStatus := func(v ssa.Value) bool {
+			v = stripConv(v)
+			if fStatus == nil {
+				prm, ok := v.(*ssa.Parameter)
+				if !ok {
+					return false
+				}
+				bt, ok := prm.Type().Underlying().(*types.Basic)
+				return ok && bt.Info()&types.IsInteger != 0
+			}
+			// *m.Status, possibly through a local
+			for d := 0; d < 4; d++ {
+				u, ok := v.(*ssa.UnOp)
+				if !ok || u.Op != token.MUL {
+					return false
+				}
+				if f, _ := fieldLoad(u); f == fStatus {
+					return true
+				}
+				if f, _ := fieldLoad(u.X); f == fStatus {
+					return true
+				}
+				if al, ok := u.X.(*ssa.Alloc); ok && al.Referrers() != nil {
+					var val ssa.Value
+					for _, r := range *al.Referrers() {
+						if st, ok := r.(*ssa.Store); ok && st.Addr == ssa.Value(al) {
+							val = st.Val
+						}
+					}
+					if val == nil {
+						return false
+					}
+					v = stripConv(val)
+					continue
+				}
+				return false
+			}
+			return false
+		}
+		flips := map[int64]bool{}
+		for _, g := range p.withNewHelpers(fn) {
+			for _, in := range instrsOf(g) {
+				b, ok := in.(*ssa.BinOp)
+				if !ok {
+					continue
+				}
+				switch b.Op {
+				case token.LSS, token.LEQ, token.GTR, token.GEQ:
+				default:
+					continue
+				}
+				x, op, k, ok := cmpConst(b)
+				if !ok || !isStatus(x) {
+					continue
+				}
+				prev, _ := evalIntCmp(op, 0, k)
+				for v := int64(1); v < 700; v++ {
+					cur, _ := evalIntCmp(op, v, k)
+					if cur != prev {
+						flips[v] = true
+						prev = cur
+					}
+				}
+			}
+		}
+		c.inst(1)
+		var got, want []string
+		bad := ""
+		for _, k := range row.flips {
+			want = append(want, fmt.Sprint(k))
+			if !flips[k] {
+				bad = fmt.Sprintf("no comparison of the status flips at %d", k)
+			}
+		}
+		for k := range flips {
+			got = append(got, fmt.Sprint(k))
+			isWant := false
+			for _, w := range row.flips {
+				if w == k {
+					isWant = true
+				}
+			}
+			if !isWant {
+				bad = fmt.Sprintf("a comparison of the status flips at %d, which is no class border (%s)", k, strings.Join(want, ", "))
+			}
+		}
+		sort.Strings(got)
+		c.check(bad == "", row.fn, "a meta status is sorted into its class at the class borders ("+strings.Join(want, ", ")+")", p.Pos(fn.Pos()), "comparisons flip at "+strings.Join(got, ", "), bad+": a status on the border is answered as a member of the neighbouring class")
 	}
 }
